@@ -39,7 +39,7 @@ def gen_case(rng):
             clock = rng.choice([None, [T0], [T0 - 7], [T0 + 3]])
         if r < 0.55:
             outcome = rng.choice(["ok", "ok", "fail", "fail", "abort"])
-            steps.append({"cmd": "run", "target": rng.choice(["//:top", "//:e1", "//a:e2", "//:top"]), "again": rng.random() < 0.5, "outcome": outcome,
+            steps.append({"cmd": "run", "target": rng.choice(["//:top", "//:e1", "//a:e2", "//:top", "//:top", "//:dupdep"]), "again": rng.random() < 0.5, "outcome": outcome,
                           "victim": rng.choice(["//:e1", "//a:e2", "//a:e3", "//a/b/deep:e4"]), "jobs": rng.choice([None, None, 3]), "clock": clock})
         elif r < 0.7:
             steps.append({"cmd": "archive", "clock": clock})
@@ -55,6 +55,11 @@ def project(scroot, name):
     tasks = [gen.mk_task("", "e1", "run_experiment", par=True), gen.mk_task("a", "e2", "run_experiment", ["//:e1"], par=True), gen.mk_task("a", "e3", "run_experiment", par=True),
              gen.mk_task("a/b/deep", "e4", "run_experiment", ["//a:e2"], par=True),
              gen.mk_task("", "c", "run_command", ["//a:e2"]), gen.mk_task("", "top", "combine", ["//:c", "//a:e3", "//a:e2", "//a/b/deep:e4"])]
+    # a definition Conductor must reject (the same dependency under two spellings); should it run anyway,
+    # every execution still needs its own fresh directory
+    dd = gen.mk_task("", "dupdep", "run_experiment", ["//:e1", "//:e1"], par=True)
+    dd["dep_strs"] = [":e1", "//:e1"]
+    tasks.append(dd)
     scripts = {t["id"]: {"steps": [["file", "data/o.bin", realrun.b64(os.urandom(16))], ["marker"]]} for t in tasks if t["kind"] in gen.PROC_KINDS}
     return realrun.Project(scroot, tasks, scripts, name=name)
 
@@ -119,6 +124,9 @@ def eval_case(case):
                 apath = os.path.join(sc.root, "arch-%d.tar.gz" % si)
                 r = pr.cond(["archive", "-o", apath], timeout=60, **kw)
             elif st["cmd"] == "gc":
+                alias = os.path.join(pr.root, "cond-out", "latest")
+                if os.path.isdir(os.path.join(pr.root, "cond-out", "a")) and not os.path.lexists(alias):
+                    os.symlink("a", alias)  # a user-made shortcut into cond-out
                 r = pr.cond(["gc"], timeout=60, **kw)
             else:
                 # an archive produced by another clone of the project whose clock is somewhere else
